@@ -114,15 +114,17 @@ func xCmp(r *rand.Rand, class *[]string) string {
 	return " " + []string{"==", "!=", ">", ">=", "<", "<="}[r.Intn(6)] + " " + []string{"0", "1", "2", "0.2", "0.4", "3", "10"}[r.Intn(7)]
 }
 
-func xLRA(r *rand.Rand, class *[]string) string {
-	unwrap := r.Intn(5) < 2
+// double: the range function is an unwrapped one and carries its own by/without (the vector aggregation above it groups again:
+// two ByWithoutPlanner selects in one statement)
+func xLRA(r *rand.Rand, class *[]string, double bool) string {
+	unwrap := r.Intn(5) < 2 || double
 	fn := pick(r, lraPlain)
 	if unwrap {
 		fn = pick(r, lraUnwrap)
 	}
 	*class = append(*class, fn)
 	pre, suf := "", ""
-	if unwrap && r.Intn(2) == 0 {
+	if unwrap && (double || r.Intn(2) == 0) {
 		pre, suf = xGrouping(r, class, 2)
 	}
 	return fn + pre + " (" + xMatchers(r) + xPipeline(r, class, unwrap) + " [" + pick(r, xDurs) + "])" + suf + xCmp(r, class)
@@ -132,15 +134,24 @@ func xQuery(r *rand.Rand) (string, []string) {
 	var class []string
 	switch r.Intn(10) {
 	case 0, 1, 2, 3:
-		return xLRA(r, &class), class
+		return xLRA(r, &class, false), class
 	case 4, 5, 6, 7, 8:
 		fn := []string{"sum", "min", "max", "avg", "stddev", "stdvar", "count"}[r.Intn(7)]
 		class = append(class, fn)
-		pre, suf := xGrouping(r, &class, 3)
+		double := r.Intn(4) == 0
+		p := 3
+		if double {
+			p = 2
+		}
+		pre, suf := xGrouping(r, &class, p)
 		if pre == "" && suf == "" {
 			class = append(class, "agg-no-grouping")
 		}
-		return fn + pre + " (" + xLRA(r, &class) + ")" + suf + xCmp(r, &class), class
+		inner := xLRA(r, &class, double)
+		if (pre != "" || suf != "") && strings.Contains(inner, "| unwrap") && (strings.Contains(inner, " by (") || strings.Contains(inner, " without (")) {
+			class = append(class, "double-grouping")
+		}
+		return fn + pre + " (" + inner + ")" + suf + xCmp(r, &class), class
 	default:
 		class = append(class, "quantile")
 		pre, suf := xGrouping(r, &class, 4)
